@@ -106,28 +106,56 @@ def run(chk):
         out = os.path.join(work, "%02d-%s" % (i, os.path.basename(p)))
         cmd = [os.path.join(vlib.BIN, "c15dump"), "-out", out, "-seed", str(chk.seed * 131 + i)] + OPTS[tier] + [os.path.join(vlib.REPO, p)]
         procs.append((p, out, cmd, subprocess.Popen(cmd, env=vlib.GOENV, stdout=subprocess.PIPE, stderr=subprocess.STDOUT, text=True)))
+    # regression program of the known finding mono-fresh-tmp-node: json.Marshal with a pointer-receiver MarshalJSON in
+    # a loop; the block fixpoint is not reached.  The dump has a CPU-time watchdog (exit status 4).
+    regress = os.path.join(vlib.VERIF, "corpus", "regress", "c15-json-loop")
+    rout = os.path.join(work, "regress-json-loop")
+    rcmd = [os.path.join(vlib.BIN, "c15dump"), "-out", rout, "-cpu-limit", "20", "-perms", "0", "-pairs", "1", "-triples", "0",
+            "-random", "0", "-weak-transfer", "0", regress]
+    rproc = subprocess.Popen(rcmd, env=vlib.GOENV, stdout=subprocess.PIPE, stderr=subprocess.STDOUT, text=True)
     dumps = []
+    wall = 3600 if tier == "quick" else 14400
     for p, out, cmd, pr in procs:
         try:
-            log, _ = pr.communicate(timeout=900 if tier == "quick" else 5400)
+            log, _ = pr.communicate(timeout=wall)
         except subprocess.TimeoutExpired:
             pr.kill()
-            log = "[timeout]"
+            log = "[wall-clock timeout after %d s; the dump has its own CPU-time watchdog, so this machine is too slow]" % wall
             pr.returncode = 124
+        if pr.returncode == 4:
+            # CPU-time watchdog: an escape-analysis run (the code's order or a permuted one) did not reach its fixpoint
+            why = open(os.path.join(out, "nonterm.txt")).read() if os.path.exists(os.path.join(out, "nonterm.txt")) else log
+            d = chk.replay_dir("nontermination:" + p)
+            open(os.path.join(d, "replay.txt"), "w").write("%s\nprogram: %s\nre-run: %s\n" % (why, p, " ".join(cmd)))
+            chk.violation("nontermination:" + os.path.basename(p), why.strip(), d)
+            for _, _, _, q in procs:
+                if q.poll() is None:
+                    q.kill()
+            rproc.kill()
+            return chk.finish()
         if pr.returncode != 0:
             for _, _, _, q in procs:
                 if q.poll() is None:
                     q.kill()
-            if pr.returncode == 124:
-                # the escape analysis did not finish on a program on which it used to finish in a second
-                d = chk.replay_dir("nontermination:" + p)
-                open(os.path.join(d, "replay.txt"), "w").write(
-                    "the escape analysis (or one of its permuted re-runs) did not terminate within the time limit on %s\n"
-                    "re-run: %s\n" % (p, " ".join(cmd)))
-                chk.violation("nontermination:" + os.path.basename(p), "escape analysis fixpoint not reached on %s" % p, d)
-                return chk.finish()
-            raise vlib.BuildError("c15dump failed on %s" % p, log)
+            rproc.kill()
+            raise vlib.BuildError("c15dump failed on %s (rc %s)" % (p, pr.returncode), log)
         dumps.append((p, out))
+    try:
+        rlog, _ = rproc.communicate(timeout=wall)
+    except subprocess.TimeoutExpired:
+        rproc.kill()
+        rlog = "[timeout]"
+    if rproc.returncode == 4:
+        d = chk.replay_dir("mono-fresh-tmp-node")
+        open(os.path.join(d, "replay.txt"), "w").write(
+            "%s\nprogram: corpus/regress/c15-json-loop (json.Marshal of a type with a pointer-receiver MarshalJSON inside a for loop)\n"
+            "re-run: %s\nor: cd corpus/regress/c15-json-loop && argot taint -config config.yaml .   (hangs)\n"
+            % (open(os.path.join(rout, "nonterm.txt")).read(), " ".join(rcmd)))
+        chk.violation("mono-fresh-tmp-node", "block fixpoint not reached on corpus/regress/c15-json-loop (fresh tmp node per application)", d)
+    elif rproc.returncode == 0:
+        chk.notes.append("stale_known_finding: corpus/regress/c15-json-loop now reaches its fixpoint")
+    else:
+        chk.notes.append("regression program c15-json-loop could not be analysed (rc %s)" % rproc.returncode)
     # run the extracted model on every cases file (parallel)
     mprocs = []
     for p, out in dumps:
